@@ -7,10 +7,16 @@ import (
 	"github.com/jmattheis/goverter/xtype"
 )
 
+// useConstructor reports whether the default constructor of the method applies to this conversion:
+// it initializes the target of the method itself, never a nested position.
+func useConstructor(ctx *MethodContext, source, target *xtype.Type) bool {
+	return ctx.UseConstructor &&
+		types.Identical(ctx.Conf.Source.T, source.T) &&
+		types.Identical(ctx.Conf.Target.T, target.T)
+}
+
 func buildTargetVar(gen Generator, ctx *MethodContext, sourceID *xtype.JenID, source, target *xtype.Type, errPath ErrorPath) ([]jen.Code, *jen.Statement, *Error) {
-	if !ctx.UseConstructor ||
-		!types.Identical(ctx.Conf.Source.T, source.T) ||
-		!types.Identical(ctx.Conf.Target.T, target.T) {
+	if !useConstructor(ctx, source, target) {
 		name := ctx.Name(target.ID())
 		variable := jen.Var().Id(name).Add(target.TypeAsJen())
 		ctx.SetErrorTargetVar(jen.Id(name))
